@@ -39,6 +39,9 @@ pub enum Kind {
     /// Reed-Solomon under-specified (scheme 129) packets whose Source Block Length field announces blocks much
     /// larger than the OTI maximum, never decodable: what is allocated is what the packets announce
     LyingBlockLength,
+    /// TSI filtering on: thousands of short-lived sessions, each TSI registered, used by one packet and released
+    /// again (the filter must not remember every TSI it ever listened to)
+    FilterChurn,
 }
 
 #[derive(Clone, Debug, PartialEq, Serialize, Deserialize)]
@@ -74,8 +77,9 @@ pub fn gen(idx: u64, rng: &mut Rng, tier: Tier) -> Scn {
         Kind::ExpiredFdtInstances,
         Kind::InterruptedObjects,
         Kind::LyingBlockLength,
+        Kind::FilterChurn,
     ];
-    let kind = kinds[(idx % 11) as usize];
+    let kind = kinds[(idx % 12) as usize];
     let cache = *rng.pick(&[1024usize, 4096, 16 * 1024, 64 * 1024, if tier == Tier::Thorough { 1024 * 1024 } else { 32 * 1024 }]);
     let scheme = match kind {
         Kind::MissingSymbol | Kind::StalledWithFdtUpdates | Kind::InterruptedObjects => Scheme::NoCode,
@@ -209,6 +213,10 @@ pub fn run(scn: &Scn, ctx: &Ctx, scratch: &Path) {
             traffic = crafted(scn.kind, scn.factor * 100, e);
             block_bytes = 4 * e;
         }
+        Kind::FilterChurn => {
+            traffic = crafted(Kind::ManySessions, scn.factor * 100, e);
+            block_bytes = 4 * e;
+        }
         Kind::NoFdtCachedTinyPayload => {
             // header-only datagrams of one TOI without EXT_FTI: they can only be cached
             let plen = (scn.b as usize) % 3; // 0, 1 or 2 payload bytes
@@ -303,7 +311,8 @@ pub fn run(scn: &Scn, ctx: &Ctx, scratch: &Path) {
     }
     let baseline = alloc::live();
     let builder = std::rc::Rc::new(NullBuilder::default());
-    let mut rr = Rr { recv: Some(flute::receiver::MultiReceiver::new(builder.clone(), Some(recv.config()), false)) };
+    let filtering = scn.kind == Kind::FilterChurn;
+    let mut rr = Rr { recv: Some(flute::receiver::MultiReceiver::new(builder.clone(), Some(recv.config()), filtering)) };
     let ep = EndpointSpec::default_ep().build();
     let base_recv = alloc::live();
     // per-object bound: cache (+ per-packet bookkeeping) + 2 blocks (+ per-symbol bookkeeping), slack 3
@@ -372,7 +381,14 @@ pub fn run(scn: &Scn, ctx: &Ctx, scratch: &Path) {
             }
         }
         let _ = err_before;
+        if filtering {
+            // crafted(ManySessions): datagram i belongs to TSI i + 11
+            rr.recv.as_mut().unwrap().add_listen_tsi(ep.clone(), i as u64 + 11);
+        }
         rr.push(&ep, b, t);
+        if filtering {
+            rr.recv.as_mut().unwrap().remove_listen_tsi(&ep, i as u64 + 11);
+        }
         let cleanup_every = if scn.kind == Kind::ExpiredFdtInstances { 1 } else { scn.cleanup_every };
         if cleanup_every > 0 && (i as u32 + 1) % cleanup_every == 0 {
             rr.cleanup(t);
@@ -383,7 +399,7 @@ pub fn run(scn: &Scn, ctx: &Ctx, scratch: &Path) {
         if i > 0 && rr.nb_objects() == 0 {
             abandoned = true;
         }
-        if scn.kind == Kind::ManySessions {
+        if scn.kind == Kind::ManySessions || scn.kind == Kind::FilterChurn {
             sessions_seen.insert(i);
         } else {
             sessions_seen.insert(0);
@@ -418,6 +434,7 @@ pub fn run(scn: &Scn, ctx: &Ctx, scratch: &Path) {
         Kind::ExpiredFdtInstances => "inject-expired-fdt-instances",
         Kind::InterruptedObjects => "drop-class-first-symbol-keep-close-object",
         Kind::LyingBlockLength => "inject-lying-source-block-length",
+        Kind::FilterChurn => "tsi-filter-churn",
     });
     match scn.kind {
         Kind::NoFdtInband | Kind::NoFdtCached | Kind::MissingSymbol | Kind::NoFdtCachedTinyPayload | Kind::LyingBlockLength => {
@@ -499,7 +516,7 @@ pub fn run(scn: &Scn, ctx: &Ctx, scratch: &Path) {
     let sessions_stay = scn.session_timeout_ms.is_none();
     // what may legitimately stay: per session a Receiver shell (when sessions never expire), the error list
     let allowance = 96 * 1024
-        + if sessions_stay && scn.kind == Kind::ManySessions { traffic.len() * 2048 } else { 0 }
+        + if sessions_stay && (scn.kind == Kind::ManySessions || scn.kind == Kind::FilterChurn) { traffic.len() * 2048 } else { 0 }
         + scn.max_objects_error * 256;
     if after > allowance {
         violate(
@@ -508,6 +525,7 @@ pub fn run(scn: &Scn, ctx: &Ctx, scratch: &Path) {
             match scn.kind {
                 Kind::ManyFdtIds => "unfinished-fdt-instances",
                 Kind::ManySessions => "idle-sessions",
+                Kind::FilterChurn => "tsi-filter-entries",
                 Kind::ManyTois => "stalled-objects",
                 _ => "stalled-object",
             },
